@@ -146,6 +146,43 @@ func siblingKeyRespell(t *rapid.T, format string) (data []byte, ty spec.T, ok bo
 		return nil, ty, false
 	}
 	alt := pair[1]
+	if format == "msgpack" && rapid.Bool().Draw(t, "dupentry") {
+		// variant: a whole entry (key and value, byte for byte) written over a
+		// sibling's entry - one attribute twice with the SAME value, another
+		// missing, the entry count right
+		items := scanMsgpack(enc)
+		end := func(it mpItem) int {
+			e := it.Off + it.Hdr
+			if it.Kind == 's' || it.Kind == 'b' || it.Kind == 'e' {
+				e += it.N
+			}
+			return e
+		}
+		src, dst := -1, -1
+		for i, it := range items {
+			if it.Kind != 's' || it.Off+it.Hdr+it.N > len(enc) || i+1 >= len(items) {
+				continue
+			}
+			switch string(enc[it.Off+it.Hdr : it.Off+it.Hdr+it.N]) {
+			case pair[0], spec.NFC(pair[0]):
+				if src < 0 {
+					src = i
+				}
+			case sib:
+				if dst < 0 {
+					dst = i
+				}
+			}
+		}
+		if src >= 0 && dst >= 0 {
+			val := func(i int) bool { k := items[i+1].Kind; return k == 'x' || k == 's' }
+			if val(src) && val(dst) && end(items[src+1]) <= len(enc) && end(items[dst+1]) <= len(enc) {
+				entry := append([]byte(nil), enc[items[src].Off:end(items[src+1])]...)
+				return splice(enc, items[dst].Off, end(items[dst+1]), entry), ty, true
+			}
+		}
+		return nil, ty, false
+	}
 	if format == "msgpack" {
 		items := scanMsgpack(enc)
 		for _, it := range items {
